@@ -113,7 +113,9 @@ namespace GeographicLib {
       mult *= amult;
       real
         r = _cCx[n],                                       // the model term
-        s = - mult * _earth.Jn(n) / sqrt(real(2 * n + 1)), // the normal term
+        // the normal term (in the normalization of the model coefficients)
+        s = - mult * _earth.Jn(n) /
+        (_norm == SphericalHarmonic::FULL ? sqrt(real(2 * n + 1)) : 1),
         t = r - s;                                         // the difference
       if (t == r)               // the normal term is negligible
         break;
